@@ -27,7 +27,12 @@ stimuli
                   subscribed control connection - each connection is its own FakeTor instance)
     tmo   the virtual clock reaches launch time + timeout exactly (every other stimulus happens "pace"
           seconds after the previous one - 0, 1, 2 or 3 s per case - always before that deadline)
-    exit0 / exit1 / sig   the process ends (code 0 / code 1 / signal), control link drops
+    exit0 / exit1 / sig   the process ends (code 0 / code 1 / signal), control link drops; the killing signal is, per
+                  case ("signo"), TERM or any other number the OS can report in a wait status: the classic 1..31
+                  and the real-time range 32..64 (integers, as Twisted's ProcessTerminated.signal carries them)
+    quit  ("direct" cases only - there the caller holds the TorProcessProtocol while the launch is pending)
+          the caller calls TorProcessProtocol.quit(): TERM goes to the process, which ends later (or not) like in
+          any other schedule; the pending result must still fail once the process has ended before 100 %
     xit / end     the process exits (processExited) while something still holds its stdio pipes / the pipes
                   close at last (processEnded); like in Twisted, loseConnection() on the exited process
                   also brings processEnded in the next reactor turn
@@ -48,6 +53,7 @@ evaluated at the quiescent point after every stimulus, after firing the reactor'
 triggers and after a final forced process end.  See DESIGN.md section 2 / C19.
 """
 import os
+import random
 import re
 import shutil
 import stat
@@ -75,7 +81,10 @@ LEVEL_TEXT = ("Held on the executions observed: every causally possible order of
               "connection (TAKEOWNERSHIP on the connection that reported 100%, by event or by GETINFO status/bootstrap-phase "
               "reply, at the instant of the notification); TorProcessProtocol driven without launch() and "
               "launch(control_port=0) with late observers only; process exit with the stdio pipes still open in every "
-              "order with deadline and pipe closure; launch() calls refused before spawning; stdout/stderr with 10 kinds "
+              "order with deadline and pipe closure; launch() calls refused before spawning;"
+              "the killing signal of a 'sig' stimulus drawn per case from classic (1..31) and real-time (32..64) signal "
+              "numbers; quit() called by the holder of a directly driven TorProcessProtocol at every position of every "
+              "order of up to 4 (quick) / 5 (thorough) stimuli; stdout/stderr with 10 kinds "
               "of byte content; virtual time advancing between stimuli; when_connected() requested at every position; oracle evaluated after every stimulus, after the "
               "reactor's shutdown triggers and after a final forced process end. Enumeration is complete for the stated "
               "alphabet and bound only; configuration variants other than the data directory are rotated by the seed, "
@@ -135,6 +144,8 @@ FLOORS = {
               "stderr_stimuli_undecodable": 1500, "stderr_stimuli_decodable": 1000,
               "caller_dir_supplied_via_torconfig": 400, "process_protocols_driven_directly": 120,
               "launch_without_control_port": 30, "observers_checked_for_pending_after_failure": 15000,
+              "process_kills_by_realtime_signal": 100, "failures_due_after_kill_by_realtime_signal": 100,
+              "quit_calls_while_result_pending": 60, "failures_due_after_quit_while_pending": 100,
               "reach:txtorcon.controller:TorProcessProtocol._maybe_notify_connected": 6000,
               "reach:txtorcon.controller:TorProcessProtocol.when_connected": 25000,
               "reach:txtorcon.controller:TorProcessProtocol.processEnded": 3500,
@@ -150,6 +161,8 @@ FLOORS = {
                  "timeouts_judged_after_failed_attempts_at_later_instants": 2000,
                  "caller_dir_supplied_via_torconfig": 3000, "process_protocols_driven_directly": 1500,
                  "launch_without_control_port": 200,
+                 "process_kills_by_realtime_signal": 500, "failures_due_after_kill_by_realtime_signal": 500,
+                 "quit_calls_while_result_pending": 300, "failures_due_after_quit_while_pending": 500,
                  "reach:txtorcon.controller:TorProcessProtocol._maybe_notify_connected": 40000,
                  "reach:txtorcon.controller:TorProcessProtocol.processEnded": 25000,
                  "reach:txtorcon.controller:TorProcessProtocol._timeout_expired": 10000,
@@ -187,13 +200,20 @@ GROUPS = [
     ("exit", ["exit0", "exit1", "sig", "xit"]), ("end", ["end"]),
     ("lst2", ["lst2"]), ("c2", ["cok2", "cfail2"]),
     ("stl", ["stl+", "stl-"]),
+    ("quit", ["quit"]),
 ]
 GROUP_OF = {a: g for g, al in GROUPS for a in al}
 # general alphabet (stl only in stall cases, xit / end only in the open-pipes family)
-ATOMS = [a for g, al in GROUPS for a in al if g not in ("stl", "end") and a != "xit"]
+ATOMS = [a for g, al in GROUPS for a in al if g not in ("stl", "end", "quit") and a != "xit"]
 PIPE_ATOMS = ["lst", "out", "err", "cok", "cfail", "p100", "plo", "tmo", "xit", "end"]
 STALL_ATOMS = ["p100", "plo", "stl+", "stl-", "tmo", "exit1", "out", "err", "sig"]
 REJECT_KINDS = ["nonanon+socks", "unix-dir-missing", "unix-dir-0755", "unknown-user", "stdout-not-filelike"]
+# the caller holds the process protocol (direct mode) and calls quit() at any position
+QUIT_ATOMS = ["lst", "out", "err", "cok", "cfail", "p100", "plo", "tmo", "exit0", "exit1", "sig", "xit", "end", "quit"]
+# signal numbers a wait status can carry on Linux: classic ones and the real-time range (32, 33 are the
+# threading library's, 34 = SIGRTMIN ... 64 = SIGRTMAX); TERM stays the most frequent
+SIGNOS = [15, 15, 15, 15, 9, 11, 6, 1, 2, 13, 24, 31, 32, 33, 34, 35, 36, 41, 50, 57, 63, 64]
+REALTIME_FROM = 32
 NOCTL_ATOMS = ["out", "err", "tmo", "exit0", "exit1", "sig", "lst"]     # ControlPort=0: nothing to connect to
 STALL_POSITIONS = 11        # commands txtorcon sends after the first SETEVENTS acknowledgement (0..10)
 EXITS = ("exit0", "exit1", "sig")
@@ -238,6 +258,8 @@ def allowed(prefix, atom):
     exited = any(a in s for a in GONE)
     if g == "end":
         return "xit" in s
+    if g == "quit":
+        return True                   # a caller action: possible whenever the caller holds the protocol
     live1, live2 = connections_alive(prefix)
     connected = live1 or live2
     retry_open = "lst2" in s and any(a in s and prefix.index(a) < prefix.index("lst2")
@@ -433,6 +455,9 @@ def variant(rnd, dd, **fixed):
         "reject": None,
         "via": rnd.choice(["launch", "launch", "launch_tor"]),     # route used when dd == "config"
     }
+    side = random.Random()
+    side.setstate(rnd.getstate())     # a fork: the draws above (and of later variants) are not shifted
+    v["signo"] = side.choice(SIGNOS)
     v.update(fixed)
     return v
 
@@ -633,6 +658,8 @@ class Run(object):
         self.caller_dir_seen = False
         self.link_exc_seen = {}
         self.launch_fired_before_tmo = False
+        self.killed_by = None              # signal number of an applied "sig"
+        self.quit_while_pending = False    # quit() was called before 100 % / exit / timeout
 
     # -- plumbing ---------------------------------------------------------------
     def V(self, clause, cls, detail):
@@ -1058,6 +1085,20 @@ class Run(object):
                 return False
             if sent > 1:
                 self.rec.count("events_on_two_connections")
+        elif atom == "quit":
+            # the caller gives up / shuts down: only whoever constructed the protocol can do that before the
+            # result is known
+            if self.mode != "direct" or self.pp is None:
+                return False
+            pending = self.t100 is None and self.launch_failed_due is None
+            if pending:
+                self.quit_while_pending = True
+            self.rec.count("quit_calls_while_result_pending" if pending else "quit_calls_after_result_known")
+            if not live:
+                self.rec.count("quit_calls_on_exited_process")
+            d = self.guard("quit", self.pp.quit)
+            if isinstance(d, defer.Deferred):
+                d.addErrback(lambda f: None)      # the quit() Deferred is not part of the property
         elif atom == "tmo":
             first = self.timeout_elapsed_at is None
             self.signals_before = len(proc.signals) if proc else 0
@@ -1094,6 +1135,12 @@ class Run(object):
                 errs = proc.exit(code=0)
             elif atom == "exit1":
                 errs = proc.exit(code=1)
+            elif atom == "sig":
+                signo = self.case.get("signo", 15)
+                self.killed_by = signo
+                self.rec.count("process_kills_by_%s_signal" % ("realtime" if signo >= REALTIME_FROM else "classic"))
+                self.rec.seen("kill_signals", signo)
+                errs = proc.exit(signal=signo)
             else:
                 errs = proc.exit(signal=15)
             for e in errs:
@@ -1280,7 +1327,8 @@ class Run(object):
             self.V("launch-not-failed-after-process-end",
                    ocls + ("+undecodable-stderr-before-exit" if "err" in self.applied
                            and self.case.get("errb") in UNDECODABLE_KINDS else "")
-                   + ("+pipes-still-open-at-deadline" if open_pipes else ""), {"atom": atom})
+                   + ("+pipes-still-open-at-deadline" if open_pipes else "") + self.end_class(),
+                   {"atom": atom, "signo": self.killed_by})
         if self.launch_failed_due == "timeout" and self.exited_at is not None and self.L is not None \
                 and not self.L.fired:
             self.V("launch-not-failed-after-timeout", ocls, {"atom": atom})
@@ -1292,6 +1340,10 @@ class Run(object):
             self.observers_at_failure = (1 if self.mode == "launch" else 0) + len(
                 [o for o in self.obs if o.kind == "wc" and not o.req_after_failure])
         if due:
+            if self.killed_by is not None and self.killed_by >= REALTIME_FROM:
+                rec.count("failures_due_after_kill_by_realtime_signal")
+            if self.quit_while_pending:
+                rec.count("failures_due_after_quit_while_pending")
             pend = [o for o in self.obs if o.kind == "wc" and not o.fired]
             rec.count("observers_checked_for_pending_after_failure",
                       len([o for o in self.obs if o.kind == "wc"]))
@@ -1302,11 +1354,20 @@ class Run(object):
                        "%s/%s%s" % ("requested-after-failed-launch" if o.req_after_failure else "requested-before-failure",
                                     "no-observer-registered-at-failure" if not self.observers_at_failure
                                     else "observers-registered-at-failure",
-                                    "+pipes-still-open-at-deadline" if open_pipes else ""),
-                       {"failed_due": self.launch_failed_due, "pending": [x.label for x in pend][:6],
+                                    ("+pipes-still-open-at-deadline" if open_pipes else "") + self.end_class()),
+                       {"failed_due": self.launch_failed_due, "signo": self.killed_by, "pending": [x.label for x in pend][:6],
                         "mode": self.mode, "atom": atom})
         # (5) directories
         self.dir_checks(phase)
+
+    def end_class(self):
+        """structural class of how the process came to its end, for the clauses about a due failure"""
+        c = ""
+        if self.killed_by is not None and self.killed_by >= REALTIME_FROM:
+            c += "+killed-by-realtime-signal"
+        if self.quit_while_pending:
+            c += "+quit-called-while-result-pending"
+        return c
 
     # -- driver ------------------------------------------------------------------------------
     def run(self):
@@ -1434,6 +1495,15 @@ def shard_cases(spec):
             rnd = gen.rnd_for(spec["seed"], PROPERTY, "pipes", i)
             for dd in ("temp", "caller"):
                 yield variant(rnd, dd, sched=list(s))
+        # the caller (holding the process protocol) calls quit() at every position of a schedule; an
+        # observer is there from the start, or asks only at the end
+        for i, s in enumerate(x for x in enumerate_schedules(spec.get("quit_maxlen", 4), QUIT_ATOMS) if "quit" in x):
+            for wf in (0, len(s) + 1):
+                j += 1
+                if j % n != k:
+                    continue
+                rnd = gen.rnd_for(spec["seed"], PROPERTY, "quit", i, wf)
+                yield variant(rnd, "caller", sched=list(s), mode="direct", wc_from=wf, wc=True, ctl="tcp")
         # launch() refuses its arguments before spawning anything
         for kind in REJECT_KINDS:
             for dd in ("caller", "caller-new", "config", "temp"):
@@ -1499,6 +1569,9 @@ def run_shard(spec, rec):
         if spec["mode"] == "late":
             rec.enumerated("process exit with stdio pipes still open (xit) x all causal permutations of length <= %d of %s "
                            "containing it" % (spec.get("pipes_maxlen", 5), ",".join(PIPE_ATOMS)))
+            rec.enumerated("TorProcessProtocol driven directly, quit() called by its holder x all causal permutations of "
+                           "length <= %d of %s containing it x observer from the start / only at the end"
+                           % (spec.get("quit_maxlen", 4), ",".join(QUIT_ATOMS)))
             rec.enumerated("launch() with arguments it refuses before spawning (%s) x temp/caller/caller-new/"
                            "TorConfig data directory" % ",".join(REJECT_KINDS))
             rec.enumerated("TorProcessProtocol driven directly x all causal permutations of length <= %d x when_connected() "
@@ -1551,7 +1624,7 @@ def plan(tier, seed):
         for k in range(32):
             specs.append({"mode": "perm", "maxlen": 7, "k": k, "of": 32, "timeout_s": 3000})
         for k in range(3):
-            specs.append({"mode": "late", "maxlen": 5, "noctl_maxlen": 4, "pipes_maxlen": 6, "reject_reps": 6,
+            specs.append({"mode": "late", "maxlen": 5, "noctl_maxlen": 4, "pipes_maxlen": 6, "reject_reps": 6, "quit_maxlen": 5,
                           "all_positions": True, "k": k, "of": 3, "timeout_s": 3000})
         # every byte offset of the listener output x all permutations <= 4; the offsets around the
         # phrase boundaries also with all permutations <= 5
